@@ -139,7 +139,7 @@ def run_shard(ctx):
     U = core_universe()
     P = U.P
     fresh_jobs = []
-    if ctx.shard % 2 == 0:
+    if ctx.shard % 4 == 2:
         # a new index-based dump starts from an empty source registry: the first source of the model gets index 0 (an index
         # like any other); in the other shards index 0 belongs to a source no tree refers to
         Source.clear_registry()
